@@ -17,7 +17,7 @@ for pid in props:
             evidence_file=f"evidence/{pid}.json",
             replay_cmd_template=f"./check {pid} --replay {{path}}",
             engine="sa",
-            level_claimed=dict(category="other", text=c["text"], design_ref=c["ref"]),
+            level_claimed=dict(category="other", text=c["text"] + registry.EXTRA.get(pid, ""), design_ref=c["ref"]),
             level_note=c["note"],
             technique=c["technique"],
         ))
